@@ -4,7 +4,7 @@
    within +-2^53; see props/C08.json "partial"). *)
 From Coq Require Import List ZArith Bool.
 Import ListNotations.
-From GMS Require Import Expr.C08Agg Expr.C08AggProofs Expr.C08RangeProofs Expr.C08RankProofs Expr.C08NtileProofs.
+From GMS Require Import Expr.C08Agg Expr.C08AggProofs Expr.C08RangeProofs Expr.C08RankProofs Expr.C08NtileProofs Expr.C08GroupConcat.
 Open Scope Z_scope.
 
 (* --- aggregation buffers: for EVERY input list the fold equals the definition over the non-NULL values;
@@ -153,6 +153,28 @@ Print Assumptions C08_rank_dense_rank_spec.
 Theorem C08_ntile_spec : forall count b, 1 <= b -> ntile count b = map (ntile_spec count b) (seq 0 count).
 Proof. exact ntile_spec_all. Qed.
 Print Assumptions C08_ntile_spec.
+
+(* bucket m of the closed form holds exactly the rows [start m, start m + size m) with size s+1 for the first
+   (c mod b) buckets and s after: sizes differ by at most 1 and never increase *)
+Theorem C08_ntile_bucket_sizes : forall s big m x, 1 <= s -> 0 <= big -> 1 <= m -> 0 <= x ->
+  (ntile_closed s big x = m <-> bucket_start s big m <= x < bucket_start s big m + bucket_size s big m) /\
+  bucket_size s big (m + 1) <= bucket_size s big m <= bucket_size s big (m + 1) + 1.
+Proof. exact (fun s big m x H1 H2 H3 H4 => conj (ntile_bucket_rows s big m x H1 H2 H3 H4) (ntile_sizes_nonincreasing s big m H1 H2 H3)). Qed.
+Print Assumptions C08_ntile_bucket_sizes.
+
+(* --- GROUP_CONCAT: the buffer (skip NULL and - as written - empty strings, DISTINCT keeps first occurrences, stable
+       ORDER BY, separator, early exit and cut at group_concat_max_len) equals its list definition for every input --- *)
+Theorem C08_group_concat_spec : forall distinct order sep maxlen rs,
+  group_concat distinct order sep maxlen rs = gc_spec distinct order sep maxlen rs.
+Proof. exact group_concat_spec. Qed.
+Print Assumptions C08_group_concat_spec.
+
+(* ... and departs from SQL's GROUP_CONCAT on empty strings: 'a', '', 'b' gives 'a,b', not 'a,,b' *)
+Theorem C08_group_concat_empty_string_refuted :
+  exists rs, group_concat false None [44%N] 1024 rs = Some [97; 44; 98]%N /\
+             rs = [(1%Z, Some [97%N]); (2%Z, Some []); (3%Z, Some [98%N])].
+Proof. exact group_concat_empty_string_refuted. Qed.
+Print Assumptions C08_group_concat_empty_string_refuted.
 
 (* --- LAG / LEAD: a shifted lookup inside the partition, else the default --- *)
 Theorem C08_lead_lag_spec : forall buf ps pe pos offset def,
